@@ -131,8 +131,40 @@ func round13Harmless() []mutant {
 	return out
 }
 
+// round15Unresolved: correct changes of round 15 on which a rule still reports (see DESIGN §11).
+var round15Unresolved = map[string]string{
+	"C11/b": "R26: the loop over the ids moved into a helper that is given a length and an accessor closure",
+	"C05/b": "R7b (justified): the new exported MergeTo hands an arbitrary io.Writer to the routines whose unchecked binary.Write calls rely on a sticky bufio.Writer — not a property of the given list, but a real weakness of the new entry point; R15b also does not follow a buffered writer handed to a delegate",
+	"C06/b": "as C05/b",
+}
+
+// round15Harmless: the correct changes of round 15 (refactors/r15/<property>/{a,b,c}.diff: observability,
+// API evolution, plumbing / housekeeping), minus round15Unresolved.
+func round15Harmless() []mutant {
+	var out []mutant
+	ms, _ := filepath.Glob(filepath.Join(verifDir, "refactors", "r15", "*", "?.diff"))
+	sort.Strings(ms)
+	for _, m := range ms {
+		prop := filepath.Base(filepath.Dir(m))
+		rel, err := filepath.Rel(verifDir, m)
+		if err != nil {
+			continue
+		}
+		letter := strings.TrimSuffix(filepath.Base(m), ".diff")
+		if _, skip := round15Unresolved[prop+"/"+letter]; skip {
+			continue
+		}
+		id := "h-r15-" + prop + "-" + letter
+		if b, err := os.ReadFile(m); err == nil && (strings.Contains(string(b), "faiss_vector") || strings.Contains(string(b), "section_faiss")) {
+			out = append(out, mutant{Harmless: true, ID: id + "-vectors", Patch: rel, Vectors: true})
+		}
+		out = append(out, mutant{Harmless: true, ID: id, Patch: rel})
+	}
+	return out
+}
+
 func harmlessTable() []mutant {
-	return append(append(append(append(append(fixedHarmless(), smallHarmless()...), round8Harmless()...), round9Harmless()...), round12Harmless()...), round13Harmless()...)
+	return append(append(append(append(append(append(fixedHarmless(), smallHarmless()...), round8Harmless()...), round9Harmless()...), round12Harmless()...), round13Harmless()...), round15Harmless()...)
 }
 
 func fixedHarmless() []mutant {
